@@ -16,6 +16,12 @@ func (k Keeper) EndBlocker(ctx sdk.Context) {
 
 	// NOTE: ignore end of block if coinomics is disabled
 	if !params.EnableCoinomics {
+		// Forget the timestamp of the last minting block, so that the first block
+		// after (re)activation only records its timestamp instead of minting for
+		// the whole period the module was switched off.
+		if !k.GetPrevBlockTS(ctx).IsZero() {
+			k.SetPrevBlockTS(ctx, sdk.ZeroInt())
+		}
 		return
 	}
 
